@@ -2,7 +2,7 @@
 \* middle zone). Used by the self-test only, never by the check.
 SPECIFICATION Spec
 CONSTANTS
-  Variant = "fixed"
+  Variant = "catchup"
   E = 0
   VPerO = 1
   MaxZ = 4
